@@ -196,6 +196,18 @@ def run(ck):
                 reqs.append(r2); meta.append(("near:" + k, tc | {c for c in classes_of(p) if c != "F13"}, None))
     for msrc in [gen_match_source(ck.rng.fork(("match-C03", i))) for i in range(150 if quick else 1500)]:
         reqs.append({"src": msrc, "n": 8, "state": True}); meta.append(("match", set(), None))
+    # closures / higher-order functions / boxed recursive values / scheduler tasks (generator of checks/C12.py), and first-order
+    # programs whose `self` is a tuple / record / sum type (lib/wideself.py): the crash oracle only, no model behind them
+    import importlib.util as _ilu, wideself as _wide
+    _sp = _ilu.spec_from_file_location("check_C12_gen", os.path.join(VERIF, "checks", "C12.py"))
+    _c12 = _ilu.module_from_spec(_sp); _sp.loader.exec_module(_c12)
+    crng = ck.rng.fork("closures-C03")
+    for i in range(200 if quick else 2500):
+        g = _c12.gen_program(crng.fork(i))
+        reqs.append({"src": g["src"], "n": 12, "state": False, "sched": True}); meta.append(("clos", set(g["tags"]), None))
+    for i in range(100 if quick else 1500):
+        wc = _wide.gen_case(ck.rng.fork(("wide-C03", i)), 8)
+        reqs.append({"src": wc["src"], "n": 8, "state": True}); meta.append(("wide", set(), None))
     frng = Rng(20260925)
     files = sorted(glob.glob(REPO + "/examples/*.mmm") + glob.glob(REPO + "/lib/*.mmm") + glob.glob(REPO + "/crates/lib/mimium-test/tests/mmm/*.mmm"))
     for f in files:
@@ -251,6 +263,10 @@ def run(ck):
                 bump("scheduler_premise_violated"); continue
             if o[0] in ("compile-panic", "run-panic"):
                 sc = site_class(o[1])
+                # F64 = C12/F26 seen by the crash oracle: the panic site alone does not identify it, the program must also
+                # return a let-bound boxed value as the result of the scope that releases it
+                if sc is None and re.search(r"BoxLoad: invalid heap index", o[1]) and _c12.let_result_pattern(src):
+                    sc = "F64"
                 hit = [sc] if (sc and sc in findings) else [c for c in ("F3", "F40", "F41") if c in cls and c in findings]
                 if hit:
                     bump(be + "_panic_in_known_class_" + hit[0]); ck.known(findings[hit[0]], kind + " " + src.replace("\n", " ")[:120])
@@ -265,7 +281,7 @@ def run(ck):
                 if nouts is not None and b.get('io') and b['io'][1] != nouts:
                     viol.append(("%s declares %d outputs for a dsp returning %d values" % (be, b['io'][1], nouts), src, rq))
                 # VM: every state access hits a cell of the published layout (hence lies inside the storage sized from it)
-                if be == "vm" and b.get('skel') and kind in ("gen", "match"):
+                if be == "vm" and b.get('skel') and kind in ("gen", "match", "wide"):
                     for t, s in enumerate(b['samples']):
                         off = events_hit_cells(b['skel'], s.get('trace', []))
                         if off:
